@@ -519,13 +519,25 @@ def do_extract(u, spec, subs, tline):
     text = apply_t2(text, fn_counts)
     for sd in subs:
         d = sd['d']
-        if d.startswith('rename '):
-            a, _, b = d[len('rename '):].partition('=>')
-            text = apply_rename(text, a.strip(), b.strip(), fn_counts)
+        if d.startswith('rename ') or d.startswith('rename? '):
+            optional = d.startswith('rename? ')
+            a, _, b = d[len('rename? ' if optional else 'rename '):].partition('=>')
+            try:
+                text = apply_rename(text, a.strip(), b.strip(), fn_counts)
+            except Undecided:
+                # `rename?`: a site-specific rewrite whose site may legitimately be absent
+                if not optional:
+                    raise
     for sd in subs:
         d = sd['d']
         if d.startswith('t4 '):
             args = d.split()[1:]
+            if args[0] in ('for_slice', 'for_refs'):
+                # t4 for_slice <k> [adapter]   (elements bound by reference) / t4 for_refs <k> [adapter] (by value)
+                text, note = t4mod.for_indexed(text, int(args[1]), args[0] == 'for_slice', args[2] if len(args) > 2 else None)
+                fn_counts['T4'] = fn_counts.get('T4', 0) + 1
+                u.rewrites.append({'fn': ' :: '.join(path), 'file': relpath, 'kind': 'T4', 'what': note})
+                continue
             if args[0] == 'bind_call':
                 # t4 bind_call <callee> <lemma> [deref]
                 text, n = t4mod.bind_call(text, args[1], args[2], len(args) > 3 and args[3] == 'deref')
@@ -616,7 +628,7 @@ def do_extract(u, spec, subs, tline):
                 fn_counts['T5'] = fn_counts.get('T5', 0) + 1
             elif d.startswith('attr '):
                 splices.append((0, tag_tmpl(d[len('attr '):].strip(), sd['tline']) + '\n'))
-            elif d.startswith(('rename ', 't4 ', 'keep-derive ')):
+            elif d.startswith(('rename ', 'rename? ', 't4 ', 'keep-derive ')):
                 pass
             else:
                 raise Undecided('%s: unknown sub-directive %r' % (u.name, d))
@@ -627,7 +639,7 @@ def do_extract(u, spec, subs, tline):
             text = re.sub(r'^(\s*)(pub(\s*\([^)]*\))?\s+)?', r'\1' + (vis + ' ' if vis else ''), text, count=1)
     else:
         for sd in subs:
-            if not sd['d'].startswith(('rename ', 't4 ', 'keep-derive ')):
+            if not sd['d'].startswith(('rename ', 'rename? ', 't4 ', 'keep-derive ')):
                 raise Undecided('%s: sub-directive %r on a non-fn item' % (u.name, sd['d']))
     # untag and emit
     first = len(u.lines) + 1
